@@ -133,6 +133,7 @@ func c06(c *core.Check) {
 	r10 := c.Rule("R10", "the tokenizer never reads its input out of range, whatever the input ends with: every read of tokenizer.src at a position derived from the cursor is implied in range by the tests that dominate it, the invariant 0 <= pos <= len(src) and the preconditions established by the callers (shared with C07.R11; error recovery at the end of the input is exact only if it does not crash)", 250)
 	scannerBoundsRule(c, r10)
 	c06LineStart(c)
+	c06ImportantState(c)
 
 	// ---- R1 preprocessing
 	r1 := c.Rule("R1", "Tokenize preprocesses its input as CSS Syntax §3.3: U+0000 becomes U+FFFD, and CRLF, CR and FF become LF, the CRLF replacement coming before the CR one (otherwise CRLF becomes two newlines), each replacement running on every path (or skipped only when its own pattern is absent)", 9)
